@@ -99,9 +99,19 @@ def fracs(tier, seed):
     return list(range(1, 129))
 
 
-def run(prop, tier, seed, workdir, log, families=("mul128", "widen")):
+DEADLINE = [None]     # epoch seconds after which no further obligation is started (run budget); set by run()
+POOL = [None]         # solver processes of the to_fixed_helper family
+
+
+def out_of_time():
+    return DEADLINE[0] is not None and time.time() > DEADLINE[0]
+
+
+def run(prop, tier, seed, workdir, log, families=("mul128", "widen"), deadline=None, pool=None):
     """returns dict(results=[...], violations=[replay paths], inconclusive=[(name, why)], functions=[...], solver_s=float)"""
-    res = {"results": [], "violations": [], "inconclusive": [], "functions": [], "solver_s": 0.0, "queries": 0, "samples": []}
+    res = {"results": [], "violations": [], "inconclusive": [], "functions": [], "solver_s": 0.0, "queries": 0, "samples": [], "skipped": []}
+    DEADLINE[0] = deadline
+    POOL[0] = pool
     try:
         path, dt = dump_mir(workdir)
         log("engine M: MIR dumped in %.0fs (%d bytes)" % (dt, os.path.getsize(path)))
@@ -177,6 +187,9 @@ def run(prop, tier, seed, workdir, log, families=("mul128", "widen")):
         nbad = 0
         for f in fracs(tier, seed):
             name = "m_mul_%s_f%d" % (ty, f)
+            if out_of_time():
+                res["skipped"].append(name)
+                continue
             if state["reproduced"] or nbad >= 10:
                 # a natively reproduced violation (or ten refuted/undecided obligations) is enough: the remaining counts are not run
                 res["results"].append({"name": name, "verdict": "skipped", "why": "not run after earlier refutations for this type"})
@@ -288,6 +301,9 @@ def run(prop, tier, seed, workdir, log, families=("mul128", "widen")):
             refuted_n = 0
             for f in range(0, w + 1):
                 name = "m_%s_%s_f%d" % (op, ty, f)
+                if out_of_time():
+                    res["skipped"].append(name)
+                    continue
                 try:
                     t0 = time.time()
                     ctx, qs, cl = builder(funcs, ty, f)
@@ -467,6 +483,8 @@ def run_tofixed(prop, tier, seed, workdir, log, funcs, res, called):
         ty, (sf, df, di) = item
         name = "m_tofixed_%s_s%d_d%d_%d" % (ty, sf, df, di)
         name = name.replace("-", "m")
+        if out_of_time():
+            return name, ty, (sf, df, di), [], [], [], [], [], 0.0, "SKIPPED"
         try:
             t0 = time.time()
             ctx, qs, cl = tofixed.build(funcs, ty, sf, df, di)
@@ -485,8 +503,11 @@ def run_tofixed(prop, tier, seed, workdir, log, funcs, res, called):
         except subprocess.TimeoutExpired:
             return name, ty, (sf, df, di), [], [], [], [], [], 0.0, "solver time-out"
     cands = []
-    with ThreadPoolExecutor(max_workers=max(2, core.NCPU - 2)) as ex:
+    with ThreadPoolExecutor(max_workers=POOL[0] or max(2, core.NCPU - 2)) as ex:
         for (name, ty, lay, qs, ans, mods, ans_z, cl, dt, err) in ex.map(one, work):
+            if err == "SKIPPED":
+                res["skipped"].append(name)
+                continue
             called.update(cl)
             res["solver_s"] += dt
             res["queries"] += len(qs) * (2 if ans_z else 1)
